@@ -418,6 +418,12 @@ func sched2Run(args []string) int {
 		viol = viol[:12]
 	}
 	dist["outcome"]["judged"] = evals
+	// BlockingExecution together with WorkerLimit (round 5): every dequeued valid fire time still reaches an executor
+	bo := bothOptions("C04")
+	viol = append(viol, bo...)
+	evals += 8
+	dist["outcome"]["both-options scenarios"] = 4
+	distinct["both-options"] = true
 	writeJSON(*out+"/stats.json", map[string]any{"seed": *seed, "evaluations": evals, "distinct_nontrivial": len(distinct), "distribution": dist,
 		"violations": viol, "samples": []any{rcs[0].String(), pcs[0].String()}, "setup_failures": setup, "wall_s": time.Since(t0).Seconds()})
 	fmt.Printf("sched2: %d resume scenarios, %d failed-push scenarios (%d judged, %d set-up failures) in %.1fs, %d violations\n", len(rcs), len(pcs), evals, setup, time.Since(t0).Seconds(), len(viol))
